@@ -24,6 +24,16 @@ pub fn from_json(j: &J) -> Value {
             // textual form accepted by DateTime::from_str
             Value::scalar(DateTime::from_str(a[1].as_str().unwrap()).expect("datetime"))
         }
+        "dtc" => {
+            // components [y, mo, d, h, mi, s, ns, offset_seconds]: built without the date parser
+            let n = |i: usize| a[i].as_i64().expect("component");
+            let date = time::Date::from_calendar_date(n(1) as i32, time::Month::try_from(n(2) as u8).expect("month"), n(3) as u8).expect("date");
+            let t = date.with_hms_nano(n(4) as u8, n(5) as u8, n(6) as u8, n(7) as u32).expect("time");
+            let off = time::UtcOffset::from_whole_seconds(n(8) as i32).expect("offset");
+            let mut d = DateTime::default();
+            *d = t.assume_offset(off);
+            Value::scalar(d)
+        }
         "d" => Value::scalar(Date::from_str(a[1].as_str().unwrap()).expect("date")),
         _ => panic!("unknown tag {}", tag),
     }
